@@ -584,7 +584,11 @@ def judge_candidate(cs, c, tris, vert_pts, refine):
     for p in vert_pts:
         d = dot3(sub3(p, p0), N)
         if d * d > lim:
-            return ('fail', 'vertex-off-plane', 'a triangle vertex is %.3g off the polygon plane' % (abs(d) / math.isqrt(N2) / U))
+            # beyond 1e-6 but within 100x of it (f64: 1e-4): the ill-conditioned circumcentre of a sliver triangle, inserted by
+            # refine without a coplanarity test -- reported under its own key so that it can be told from a gross defect
+            gross = d * d > lim * 10000
+            return ('fail', 'vertex-off-plane' if gross else 'vertex-off-plane-small',
+                    'a triangle vertex is %.3g off the polygon plane' % (abs(d) / math.isqrt(N2) / U))
     # band to the outlines
     rb = Fraction(1, 10**6) if not f32 else max(Fraction(1, 10**6), Fraction(8 * float(OC.FMT.eps) * scale))
     R2 = sc.r2(rb); r = math.isqrt(R2) + 1
